@@ -423,6 +423,13 @@ impl<'a, A: AcceptableMasterList, C: Clock, F: Filter, R: Rng, S: PtpInstanceSta
 
     /// Handle the announce receipt timer going off
     pub fn handle_announce_receipt_timer(&mut self) -> PortActionIterator<'_> {
+        if matches!(self.port_state, PortState::Faulty) {
+            // A port disabled by a peer delay fault stays disabled until a clean
+            // peer delay exchange; keep the timer running for when it recovers.
+            let duration = self.config.announce_duration(&mut self.rng);
+            return actions![PortAction::ResetAnnounceReceiptTimer { duration }];
+        }
+
         if self
             .instance_state
             .with_ref(|state| state.default_ds.slave_only)
